@@ -339,7 +339,7 @@ let handle (line : string) : string =
     let t = ref (t_new_empty) in
     let outs = List.map (fun op ->
         match String.split_on_char ':' op with
-        | ["r"; mb] -> t := t_resize esize !t (n_of_string mb); "r"
+        | ["r"; mb] -> t := t_resize dflt esize !t (n_of_string mb); "r"
         | ["a"; k; v] -> (match t_add !t (n_of_string k) (n_of_string v) with Some t' -> t := t'; "a" | None -> "PANIC")
         | ["p"; k] -> (match t_poll dflt !t (n_of_string k) with Some v -> string_of_n v | None -> "PANIC")
         | ["c"] -> t := t_clear !t; "c"
